@@ -22,6 +22,7 @@ package entrypoint
 
 import (
 	"errors"
+	"fmt"
 
 	errorsmod "cosmossdk.io/errors"
 	sdk "github.com/cosmos/cosmos-sdk/types"
@@ -126,10 +127,31 @@ func (i IBCMiddleware) OnRecvPacket(
 	return ack
 }
 
+// newErrorAcknowledgement returns an error acknowledgement for the given error.
+//
+// NOTE: acknowledgements are written into state, so they can contain only
+// deterministic information. The text of the error is assembled from errors
+// wrapped across many packages and is not guaranteed to be the same on every
+// node (e.g. the JSON codec reports the first unknown field it finds while
+// ranging over a map). For this reason, as in ibc-go, only the information of
+// the registered error is included in the acknowledgement.
 func newErrorAcknowledgement(err error) channeltypes.Acknowledgement {
+	codespace, code, _ := errorsmod.ABCIInfo(err, false)
+
+	reason := "internal error"
+	var registeredErr *errorsmod.Error
+	if errors.As(err, &registeredErr) {
+		reason = registeredErr.Error()
+	}
+
 	return channeltypes.Acknowledgement{
 		Response: &channeltypes.Acknowledgement_Error{
-			Error: errorsmod.Wrap(err, "orbiter-middleware error").Error(),
+			Error: fmt.Sprintf(
+				"orbiter-middleware error: %s (codespace: %s, ABCI code: %d)",
+				reason,
+				codespace,
+				code,
+			),
 		},
 	}
 }
